@@ -122,10 +122,12 @@ def same(a, b):
 
 
 def survives(out, key, got, want):
-    out[key] = same(got, want)
     if isinstance(want, TsVal):
-        # residual of the known finding C12-datetime-subsecond: exact on whole seconds
+        # known finding C12-datetime-subsecond (one obligation per contract); residual: exact on whole seconds
+        out["datetime_statistic_survives"] = And(out.get("datetime_statistic_survives", True), same(got, want))
         out[key + "_when_whole_seconds"] = Implies(SBool(want.ns.z % serial.NS == 0), same(got, want))
+    else:
+        out[key] = same(got, want)
 
 
 def check_call_matches(call, stats, out, prefix):
@@ -341,3 +343,141 @@ class ParseChecks(Contract):
 
 
 CONTRACTS.append(ParseChecks)
+
+
+# ---------------------------------------------------------------------------------------
+# component records: _serialize_component_stats  ->  wire  ->  _deserialize_component_stats
+# ---------------------------------------------------------------------------------------
+
+COLUMN_FLAGS = ("nullable", "unique", "coerce", "required", "regex")
+INDEX_FLAGS = ("nullable", "unique", "coerce")
+
+
+def check_namespace(label="Check"):
+    """the global `Check` of pandera.io as seen by the de-serialisers: `getattr(Check, name)` is a recording constructor"""
+    return T.Ref(None, strict=True, **{n: T.Callback(T.Lazy(fresh_instance), raises=False) for n in NAMES})
+
+
+def component_stats_value(kind, label, dtype_kind, check_names, opt=True):
+    """the statistics record of a Column (kind='column') or of an Index level (kind='index') as documented in
+    schema_statistics: every serialisable attribute under its own name"""
+    S = (lambda n: T.fresh_value(T.Opt(T.Str), n)) if opt else (lambda n: T.fresh_value(T.Str, n))
+    d = DictObj()
+    d["dtype"] = live_dtype(dtype_kind)
+    d["nullable"] = T.fresh_value(T.Bool, f"{label}.nullable")
+    if kind == "column":
+        for f in ("coerce", "required", "regex"):
+            d[f] = T.fresh_value(T.Bool, f"{label}.{f}")
+    checks = None
+    if check_names is not None:
+        checks = DictObj()
+        for n in check_names:
+            checks[n] = check_stats_value(n, dtype_kind, f"{label}.checks.{n}")
+    d["checks"] = checks
+    if kind == "index":
+        d["coerce"] = T.fresh_value(T.Bool, f"{label}.coerce")
+        d["name"] = S(f"{label}.name")
+    d["unique"] = T.fresh_value(T.Bool, f"{label}.unique")
+    if kind == "column":
+        d["description"] = S(f"{label}.description")
+        d["title"] = S(f"{label}.title")
+    else:
+        d["title"] = S(f"{label}.title")
+        d["description"] = S(f"{label}.description")
+    return d
+
+
+def snapshot_component(d):
+    snap = dict(d)
+    if d["checks"] is not None:
+        snap["checks"] = {n: {k: (dict(v) if k == "options" else v) for k, v in st.items()} for n, st in d["checks"].items()}
+    return snap
+
+
+def component_kwargs_match(kw, snap, ns, out, prefix="", seen_calls=None):
+    """`kw` (the keyword arguments the de-serialiser builds for Column / Index) equals the record `snap`"""
+    for f in snap:
+        if f in ("dtype", "checks"):
+            continue
+        out[f"{prefix}attribute_{f}_survives"] = (f in kw) and same(kw[f], snap[f])
+    out[f"{prefix}no_attribute_invented"] = set(kw) <= set(snap)
+    dt = snap["dtype"]
+    out[f"{prefix}dtype_survives"] = ("dtype" in kw) and ((kw["dtype"] is None) if dt is None else (kw["dtype"] == dt))
+    if snap["checks"] is None:
+        out[f"{prefix}no_checks_stay_none"] = kw.get("checks", 0) is None
+        return
+    insts = kw.get("checks")
+    names = list(snap["checks"])
+    out[f"{prefix}one_check_instance_per_entry"] = isinstance(insts, (list, ListObj)) and len(insts) == len(names)
+    if not out[f"{prefix}one_check_instance_per_entry"]:
+        return
+    for i, (n, inst) in enumerate(zip(names, insts)):
+        cb = ns.attrs.get(n)
+        calls = cb.calls if isinstance(cb, SymCallable) else []
+        k = (seen_calls or {}).get(n, 0)
+        ok = isinstance(inst, Obj) and inst.name.endswith(f".{n}#{k}") and len(calls) > k
+        out[f"{prefix}check_{i}_built_by_its_named_constructor"] = ok
+        if not ok:
+            continue
+        st = snap["checks"][n]
+        check_call_matches(calls[k], st, out, f"{prefix}check_{i}_")
+        check_options_match(inst, st["options"], out, f"{prefix}check_{i}_")
+        if seen_calls is not None:
+            seen_calls[n] = k + 1
+
+
+class ComponentRoundTrip(Contract):
+    """a Column / Index record survives  _serialize_component_stats -> JSON -> _deserialize_component_stats  attribute by
+    attribute (title, description, dtype, nullable, checks with statistics and options, name, unique, coerce, required, regex)."""
+
+    target = f"{IO}:_serialize_component_stats"
+    split = {"kind": ["column", "index"], "checks": ["none", "one", "two"]}
+    sym_globals = {f"{IO}:Check": check_namespace()}
+    max_paths = 20000
+
+    def setup(self, I):
+        serial.install(I)
+
+    def make_args(self):
+        kind, nchecks = self.fixed["kind"], self.fixed["checks"]
+        if nchecks == "none":
+            names = None
+        elif nchecks == "one":
+            k = cur().choose([(n, None) for n in NAMES], "check")
+            names = [NAMES[k]]
+        else:
+            names = ["in_range", "equal_to"]  # a multi-argument and a unary check together (wiring; each kind alone is case 'one')
+        kinds = DTYPE_KINDS if not names else [d for d in DTYPE_KINDS if all(d in dtype_kinds_for(n) for n in names)]
+        k = cur().choose([(d, None) for d in kinds], "dtype")
+        d = component_stats_value(kind, kind, kinds[k], names)
+        d.pre, d.name = True, "component_stats"
+        cur().ghost["c12"] = dict(snap=snapshot_component(d))
+        return {"component_stats": d}
+
+    def call_target(self, I, fn, a):
+        g = cur().ghost["c12"]
+        ser = I.call(fn, [a["component_stats"]], {})
+        bad = []
+        wire = serial.transport(ser, "$", bad)
+        g["bad"] = bad
+        deser = LOADER.closure_of(resolve_target(f"{IO}:_deserialize_component_stats"))
+        return I.call(deser, [wire], {})
+
+    def modifies(self, component_stats):
+        out = [("container", id(component_stats))]
+        if component_stats["checks"] is not None:
+            out += [("container", id(st)) for st in component_stats["checks"].values()]
+        return out
+
+    def ensures(self, result, old, component_stats):
+        g = cur().ghost["c12"]
+        out = {"wire_form_is_json": not g["bad"], "returns_keyword_arguments": isinstance(result, (dict, DictObj))}
+        if not out["returns_keyword_arguments"]:
+            return out
+        ns = cur().globals_state.get((IO, "Check"))
+        component_kwargs_match(result, g["snap"], ns, out)
+        out["record_itself_keeps_its_attributes"] = all(component_stats.get(k) is v for k, v in g["snap"].items() if k != "checks")
+        return out
+
+
+CONTRACTS.append(ComponentRoundTrip)
